@@ -488,10 +488,13 @@ func (e *Exec) handToMain(from *Thread) {
 
 // ---- virtual clock ----
 
+// freeClock is the virtual clock outside executions (sequential E2 drivers).
+var freeClock int64
+
 //go:norace
 func ClockNanos() int64 {
 	if cur == nil {
-		return 0
+		return freeClock
 	}
 	return cur.clock
 }
@@ -500,8 +503,15 @@ func ClockNanos() int64 {
 func AdvanceClock(d int64) {
 	if cur != nil {
 		cur.clock += d
+	} else {
+		freeClock += d
 	}
 }
+
+// SetFreeClock sets the virtual clock used outside executions.
+//
+//go:norace
+func SetFreeClock(n int64) { freeClock = n }
 
 type timerWaiter struct{}
 
